@@ -313,3 +313,93 @@ def compile_only(exe, paths, timeout=60):
     if p.returncode != 0:
         return None, p.stderr.strip()[-300:]
     return [l for l in p.stdout.splitlines() if l.strip()], None
+
+
+RE_FUNCS = ("compile", "search", "match", "fullmatch", "findall", "finditer", "sub", "subn", "split")
+FLAG_ALIASES = {"I": "IGNORECASE", "A": "ASCII", "U": "UNICODE", "M": "MULTILINE", "S": "DOTALL", "X": "VERBOSE", "L": "LOCALE"}
+
+
+def regex_calls(ctx):
+    """(module, call node, pattern text, flag names) for every re.<function>(constant pattern, ...)."""
+    out = []
+    for name, m in sorted(ctx.repo.modules.items()):
+        for n in ast.walk(m.tree):
+            if not (isinstance(n, ast.Call) and isinstance(n.func, ast.Attribute) and n.func.attr in RE_FUNCS):
+                continue
+            if ctx.ce.ext_name(m, n.func) != "re." + n.func.attr:
+                continue
+            if not n.args:
+                continue
+            try:
+                pat = ctx.ce.eval(m, n.args[0], "C20.regex")
+            except AnalysisError:
+                pat = None
+            flags = set()
+            pos = {"compile": 1, "search": 2, "match": 2, "fullmatch": 2, "findall": 2, "finditer": 2, "sub": 4, "subn": 4, "split": 3}[n.func.attr]
+            fexprs = list(n.args[pos : pos + 1]) + [kw.value for kw in n.keywords if kw.arg == "flags"]
+            for fx in fexprs:
+                for part in ast.walk(fx):
+                    if isinstance(part, ast.Attribute):
+                        flags.add(FLAG_ALIASES.get(part.attr, part.attr))
+            out.append((m, n, pat, flags))
+    return out
+
+
+def unicode_sensitive(pattern, flags):
+    """Constructs of a str pattern whose meaning differs between Python 2.7 (ASCII semantics unless
+    re.UNICODE) and Python 3 (Unicode semantics unless re.ASCII): returns a list of reasons.
+    Only the case-folding difference is decided: with IGNORECASE a letter i, s or k also matches
+    U+0130/U+0131, U+017F, U+212A on Python 3 only."""
+    import re._parser as sp  # noqa
+    import re._constants as sc  # noqa
+
+    reasons = []
+    try:
+        tree = sp.parse(pattern)
+    except Exception:
+        return reasons
+    inline = tree.state.flags if hasattr(tree, "state") else 0
+    import re as _re
+
+    icase = "IGNORECASE" in flags or bool(inline & _re.IGNORECASE)
+    uni = "UNICODE" in flags  # explicit: Python 2.7 then folds like Python 3
+    asc = "ASCII" in flags or bool(inline & _re.ASCII)
+    if not icase or uni:
+        return reasons
+    if asc:
+        return ["re.ASCII does not exist on Python 2.7"]
+    letters = set()
+
+    def walk(seq):
+        for op, av in seq:
+            if op is sc.LITERAL or op is sc.NOT_LITERAL:
+                letters.add(chr(av).lower())
+            elif op is sc.IN:
+                for o2, a2 in av:
+                    if o2 is sc.LITERAL:
+                        letters.add(chr(a2).lower())
+                    elif o2 is sc.RANGE:
+                        lo, hi = a2
+                        for c in "isk":
+                            if lo <= ord(c) <= hi or lo <= ord(c.upper()) <= hi:
+                                letters.add(c)
+            elif op in (sc.MAX_REPEAT, sc.MIN_REPEAT, getattr(sc, "POSSESSIVE_REPEAT", None)):
+                walk(av[2])
+            elif op is sc.SUBPATTERN:
+                walk(av[3])
+            elif op is sc.BRANCH:
+                for alt in av[1]:
+                    walk(alt)
+            elif op in (sc.ASSERT, sc.ASSERT_NOT):
+                walk(av[1])
+            elif op is getattr(sc, "ATOMIC_GROUP", None):
+                walk(av)
+
+    walk(tree)
+    hit = sorted(letters & set("isk"))
+    if hit:
+        reasons.append(
+            "IGNORECASE on a text pattern containing %s: Python 3 also matches %s, Python 2.7 (no re.UNICODE) does not"
+            % (", ".join(hit), ", ".join({"i": "U+0130/U+0131", "s": "U+017F", "k": "U+212A"}[c] for c in hit))
+        )
+    return reasons
